@@ -257,7 +257,11 @@ def _limit_pos(
   sensorid = sensor_limitpos_adr[limitposid]
   if efc_id_in[worldid, efcid] == sensor_objid[sensorid]:
     efc_type = efc_type_in[worldid, efcid]
-    if efc_type == ConstraintType.LIMIT_JOINT or efc_type == ConstraintType.LIMIT_TENDON:
+    # a joint sensor only reads joint limit rows, a tendon sensor only tendon limit rows (ids overlap)
+    is_joint_sensor = sensor_type[sensorid] == SensorType.JOINTLIMITPOS
+    if (efc_type == ConstraintType.LIMIT_JOINT and is_joint_sensor) or (
+      efc_type == ConstraintType.LIMIT_TENDON and not is_joint_sensor
+    ):
       val = efc_pos_in[worldid, efcid] - efc_margin_in[worldid, efcid]
       _write_scalar(sensor_type, sensor_datatype, sensor_adr, sensor_cutoff, sensorid, val, sensordata_out[worldid])
 
@@ -1056,7 +1060,11 @@ def _limit_vel(
   sensorid = sensor_limitvel_adr[limitvelid]
   if efc_id_in[worldid, efcid] == sensor_objid[sensorid]:
     efc_type = efc_type_in[worldid, efcid]
-    if efc_type == ConstraintType.LIMIT_JOINT or efc_type == ConstraintType.LIMIT_TENDON:
+    # a joint sensor only reads joint limit rows, a tendon sensor only tendon limit rows (ids overlap)
+    is_joint_sensor = sensor_type[sensorid] == SensorType.JOINTLIMITVEL
+    if (efc_type == ConstraintType.LIMIT_JOINT and is_joint_sensor) or (
+      efc_type == ConstraintType.LIMIT_TENDON and not is_joint_sensor
+    ):
       _write_scalar(
         sensor_type, sensor_datatype, sensor_adr, sensor_cutoff, sensorid, efc_vel_in[worldid, efcid], sensordata_out[worldid]
       )
@@ -1668,7 +1676,11 @@ def _limit_frc(
   sensorid = sensor_limitfrc_adr[limitfrcid]
   if efc_id_in[worldid, efcid] == sensor_objid[sensorid]:
     efc_type = efc_type_in[worldid, efcid]
-    if efc_type == ConstraintType.LIMIT_JOINT or efc_type == ConstraintType.LIMIT_TENDON:
+    # a joint sensor only reads joint limit rows, a tendon sensor only tendon limit rows (ids overlap)
+    is_joint_sensor = sensor_type[sensorid] == SensorType.JOINTLIMITFRC
+    if (efc_type == ConstraintType.LIMIT_JOINT and is_joint_sensor) or (
+      efc_type == ConstraintType.LIMIT_TENDON and not is_joint_sensor
+    ):
       _write_scalar(
         sensor_type, sensor_datatype, sensor_adr, sensor_cutoff, sensorid, efc_force_in[worldid, efcid], sensordata_out[worldid]
       )
